@@ -13,9 +13,11 @@ class NativeMaster:
     first offered; wdata.valid is high with the queue head until wdata.ready.  rdata.ready is constantly 1.
     `wait_reads`: if True the master does not offer a new command while read data is outstanding (non-pipelined)."""
 
-    def __init__(self, port, ops, name="m", wait_reads=False, flush_at_end=False, use_last=False):
+    def __init__(self, port, ops, name="m", wait_reads=False, flush_at_end=False, use_last=False, loop_until=0):
         self.port = port
-        self.ops = ops
+        self.ops = list(ops)
+        self.base_ops = list(ops)
+        self.loop_until = loop_until if ops else 0
         self.name = name
         self.i = 0
         self.offered = False
@@ -65,6 +67,16 @@ class NativeMaster:
                 self.reads_out += 1
             self.i += 1
             self.offered = False
+            if self.i >= len(self.ops) and t < self.loop_until:
+                # repeat the op list (same addresses, data made distinct per round) until loop_until
+                rnd = len(self.ops) // len(self.base_ops)
+                for op in self.base_ops:
+                    o = dict(op)
+                    if o["we"]:
+                        o["data"] = (o["data"] + rnd * 0x0101010101010101010101010101010101) & ((1 << self.port.data_width) - 1)
+                    self.ops.append(o)
+                    self.accept_t.append(None)
+                    self.offer_t.append(None)
             if self.i < len(self.ops):
                 self.gap = self.ops[self.i].get("gap", 0)
         # drive
